@@ -17,6 +17,7 @@ mappers; clones; explicit data_ids; equal data under distinct ids; unicode) on t
 """
 from __future__ import annotations
 
+import dataclasses
 import json
 import traceback
 
@@ -62,6 +63,30 @@ def ent_de(parent, item):
     return Ent(item["name"], item["guid"])
 
 
+@dataclasses.dataclass(frozen=True)
+class Bag:
+    """Frozen dataclass that is *falsy* (an empty container): what the mapper returns must be taken as the
+    node's data whatever its truth value."""
+
+    name: str
+
+    def __len__(self):
+        return 0
+
+
+def bag_ser(node, data):
+    data["bag"] = node.data.name
+
+
+def bag_de(parent, item):
+    return Bag(item["bag"])
+
+
+def _f_bag(obj, base):
+    base["bag"] = obj.name
+    return base
+
+
 def _guid_id(tree, data):
     return data.guid if isinstance(data, Ent) else hash(data)
 
@@ -99,6 +124,7 @@ DFAMS = {
     "rec_inplace": DFam("rec_inplace", new_tree=lambda: Tree("T"), mk=c05.mk_rec, ser=rec_ser_inplace, de=rec_de_fields, fields=_f_rec_inplace),
     "rec_new": DFam("rec_new", new_tree=lambda: Tree("T"), mk=c05.mk_rec, ser=rec_ser_new, de=rec_de_list, fields=_f_rec_new),
     "ent": DFam("ent", new_tree=lambda: Tree("T", calc_data_id=_guid_id), mk=c05.mk_ent, ser=ent_ser, de=ent_de, fields=_f_ent, guid=True),
+    "bag": DFam("bag", new_tree=lambda: Tree("T"), mk=c05._memo(lambda lab: Bag(lab)), ser=bag_ser, de=bag_de, fields=_f_bag),
     # objects without mapper: only the structure ("data" is the string form) is promised
     "int": DFam("int", new_tree=lambda: Tree("T"), mk=c05._memo(lambda lab: 1000 + sum(ord(c) for c in lab)), ser=None, de=None, fields=_f_plain, roundtrip=False),
     "tuple": DFam("tuple", new_tree=lambda: Tree("T"), mk=c05._memo(lambda lab: (lab, len(lab))), ser=None, de=None, fields=_f_plain, roundtrip=False),
@@ -331,6 +357,7 @@ def case_list(tier: str):
     objs = list(gen.plain_specs(N)) + list(c05.idclone_specs(N)) + list(gen.explicit_id_specs(N - 1))
     for f in ("rec_inplace", "rec_new"):
         out += [(f, s) for s in objs]
+    out += [("bag", s) for s in gen.plain_specs(N - 1)] + [("bag", s) for s in c05.idclone_specs(N - 1, ids=("id7", 0))]
     out += [("ent", s) for s in gen.plain_specs(N)]
     out += [("ent", s) for s in c05.idclone_specs(N - 1)]
     for f in ("int", "tuple"):
@@ -389,7 +416,7 @@ def run(prop: str, tier: str, only=None) -> Result:
     res.bounds["Tree.to_dict_list / Node.to_dict / Tree.from_dict / Node.from_dict"] = (
         f"{len(cases)} trees, exhaustive: string trees <= {N} nodes over {{a,b,c}} with clones at every position, unicode labels <= {N - 1}, equal data under ids 1/2 <= {N}, "
         f"one explicit id <= {N}, explicit-id clone groups (ids 'id7', 0, '') <= {N}; frozen-dataclass trees <= {N} with two inverse mapper pairs "
-        f"(in-place / new dict) incl. explicit ids; identity-hashed objects keyed by guid (calc_data_id) <= {N}; int and tuple data without mapper <= {N - 1} "
+        f"(in-place / new dict) incl. explicit ids; falsy (empty-container) dataclass objects <= {N - 1} incl. explicit-id clone groups; identity-hashed objects keyed by guid (calc_data_id) <= {N}; int and tuple data without mapper <= {N - 1} "
         f"(structure only); each string/dataclass tree also after remove_children() of every inner node; round trip directly, through json.dumps/loads, and "
         f"through Node.from_dict below a childless node; {len(_emptied())} emptied trees"
     )
